@@ -30,7 +30,14 @@ def gen_case(case):
     solid_only = r.random() < 0.55
     srcs = []
     meta = {"solid_only": solid_only}
-    if r.random() < 0.5:
+    mode = r.random()
+    if mode < 0.2:
+        meta["mode"] = "grid-recurrence"
+        svgs, gcfg, m = svggen.grid_recurrence_set(r, r.randint(2, 3), gradients=not solid_only, pal=pal)
+        cfg.update(gcfg)
+        cfg.pop("transform", None)
+        srcs.extend(svgs)
+    elif mode < 0.6:
         meta["mode"] = "random"
         for g in range(r.randint(1, 3)):
             t, m = svggen.svg_source(r, g, pal, gradients=not solid_only, groups=not solid_only)
@@ -159,7 +166,11 @@ def run_case(case):
                     l.sigma, l.transformed = max(l.sigma, baked_sigma), True
         # ---- every source contour exactly once, nothing else visible (contour level: composites may have
         # been decomposed by the compiler, e.g. component scales beyond F2Dot14 or CFF flavours)
-        rcs = [(li, rl, cc) for li, rl in enumerate(ref) for cc in rl.contours]
+        def _vis(cc):  # a contour below one font unit in both directions vanishes when coordinates are rounded
+            b = geom.bbox([cc])
+            return (b[2] - b[0]) >= 1.0 or (b[3] - b[1]) >= 1.0
+
+        rcs = [(li, rl, cc) for li, rl in enumerate(ref) for cc in rl.contours if _vis(cc)]
         gcs = [(pj, p, cc) for pj, p in enumerate(pieces) for cc in p["contours"]]
         step = max(1.0, built.cfg.upem / 400)
         adj, ratios = [], {}
